@@ -19,9 +19,22 @@ RULE = ('cases: (slot) reward histories fed to the real SlotMachine with a recor
         'sliding windows with thresholds on and next to the exact coefficient of variation. non-trivial = distinct case whose '
         'history has >= 2 updates / a tie / a positive reward / a window that reaches the threshold test.')
 TRUSTED = ['Coq primitive floats (kernel-level IEEE-754 binary64) are the arithmetic of Rust f64 for + - * / sqrt (validated bit for bit on every run)',
-           'the Q model and the float twin are the same formulas written twice (syntactic twins); only the Q model carries the unbounded theorems',
+           'the Q model and the float twin are the same formulas written twice (syntactic twins); the Q model carries the unbounded theorems, '
+           'the float twin the f64-level theorems C18_float_* (finite prior/rewards of magnitude <= 2^480, <= 2^52 updates)',
+           'axioms the C18_float_* theorems depend on (Print Assumptions; standard library only, the development declares none): '
+           'ClassicalDedekindReals.sig_forall_dec, ClassicalDedekindReals.sig_not_dec, Classical_Prop.classic, '
+           'FunctionalExtensionality.functional_extensionality_dep (classical real numbers, via Reals/Flocq) and the primitive float / 63-bit integer '
+           'specification of Coq.Floats.FloatAxioms (Prim2SF_valid, SF2Prim_Prim2SF, Prim2SF_SF2Prim, add_spec, sub_spec, mul_spec, div_spec, sqrt_spec, '
+           'abs_spec, eqb_spec, ltb_spec, leb_spec, of_uint63_spec, ...) and Uint63 (of_to_Z, add_spec, sub_spec, lsl_spec, lsr_spec, lor_spec, ...); '
+           'Flocq 4.1.0 (IEEE754.PrimFloat bridge Prim2B, BinarySingleNaN correctness theorems) is a library of proofs, not an axiom',
+           'rand_distr 0.4.3: Gamma::new fails iff !(shape > 0) or !(scale > 0), Normal::new fails iff !std_dev.is_finite(); Gamma sampling is assumed '
+           'to return a finite non-negative number (hypothesis of C18_float_sampler_arguments_valid, which also needs draw = 0 or draw >= 2^-1022)',
            'rewards of DynamicSelective are observed through its public Display telemetry (is_experimental = true)']
-ASSUMPTIONS = ['exact real arithmetic for the unbounded theorems (Q); over f64 the invariants are validated on every run, not proved',
+ASSUMPTIONS = ['exact real arithmetic for the unbounded theorems (Q)',
+               'f64-level theorems (C18_float_*, about the primitive-float twin): prior and rewards finite with |x| <= 2^480, at most 2^52 updates; '
+               'gamma draw 0, -0 or finite >= 2^-1022 once n > 0 (any value, even NaN, while n = 0); outside these bounds the conclusions fail '
+               '(witnesses C18_float_unbounded_reward_refuted: one reward 2^512 -> beta = NaN; C18_float_sampler_tiny_gamma_refuted: draw 5e-324 -> std_dev = inf); '
+               'the f64 mean is proved to stay within representable bounds around the hull with a margin of 2^-52 * 2^m (|values| <= 2^m), not inside the hull',
                'fitness values compared are finite; MaxTime limit >= 0; MinVariation sample >= 1 (asserted by the code)',
                'cv <= thr is stated through squares (no square root in Q)']
 
@@ -877,10 +890,18 @@ MANIFEST_TEXT = ('Machine-checked proof (Coq) over an exact-arithmetic (Q) execu
                  'the sampler arguments are valid for every gamma draw, random_argmax/weighted return an index of a configured operator for '
                  'every random stream, 0 <= reward <= 3(2N+1) (<= 3(N+1) for non-negative fitness; the documented [0,6] only for N = 1: refuted '
                  'with witnesses), estimates lie in [0,1], MinVariation fires iff generation >= sample-1 and no objective column has cv > threshold. '
-                 'A bit-exact twin over Coq primitive floats is compared bit for bit with the real SlotMachine on every run (all float histories); '
+                 'Over f64: a bit-exact twin of the slot machine over Coq primitive floats is compared bit for bit with the real SlotMachine on every run '
+                 '(all float histories), and for this twin it is proved (Flocq IEEE-754 formalisation, universally quantified) that for every finite prior '
+                 'and rewards of magnitude <= 2^480 and at most 2^52 updates: alpha is exactly 1 + n/2, beta is finite, >= 10, non-decreasing, the Gamma scale '
+                 '1/beta is finite and > 0, v and mu are finite (no NaN/inf anywhere, 0 < v <= beta, |mu| <= 2^480(1+2^-52)), the sampler arguments are valid '
+                 '(std_dev finite >= 0, no division by zero) for every gamma draw that is 0 or finite >= 2^-1022, and the mean stays within 2^-52*2^m of the hull; '
                  'the Q model is compared as rationals on exact dyadic inputs; the invariants are also evaluated on the implementation output.')
-MANIFEST_NOTE = ('Trusted: Coq kernel + vm_compute + primitive floats; harness, generators, comparison. Over f64 the invariants are validated '
-                 '(every run), not proved; f64 mean can leave the hull by rounding, rewards exceed the documented [0,6] for N >= 2 objectives or '
+MANIFEST_NOTE = ('Trusted: Coq kernel + vm_compute + primitive floats; harness, generators, comparison. The f64-level theorems (C18_float_*) depend on '
+                 'standard-library axioms only: the classical reals (ClassicalDedekindReals.sig_forall_dec, sig_not_dec, Classical_Prop.classic, '
+                 'functional_extensionality_dep) and the primitive float/int specification (FloatAxioms, Uint63); they hold under explicit bounds '
+                 '(|prior|, |reward| <= 2^480 finite, <= 2^52 updates, gamma draw 0 or >= 2^-1022) and fail outside (one reward 2^512 -> beta NaN; draw 5e-324 -> '
+                 'std_dev inf: witnesses). Not proved over f64: rewards, termination estimates, MinVariation (Q only). '
+                 'f64 mean can leave the hull by rounding, rewards exceed the documented [0,6] for N >= 2 objectives or '
                  'opposite-sign fitness and overflow to inf near f64::MAX (known findings). MinVariation period mode, Noise and TargetProximity '
                  'firing are not modelled.')
 MANIFEST_TECHNIQUE = 'Coq proof over executable Q model + primitive-float twin, vm_compute differential correspondence with the Rust implementation'
